@@ -21,7 +21,7 @@ Definition checker_date_test (src : list Z) : bool :=
    scanner went into its date branch at the first token *)
 Lemma D7_witness :
   exists text w, print_arg_vals opts80 [VI (-10); VI (-20)] 0 = Some (text, w) /\
-    count_printed_arg_vals text = Ok (true, 2) /\
+    count_printed_arg_vals no_oracle no_oracle text = Ok (true, 2) /\
     checker_date_test text = false /\ old_scanner_date_test text = true.
 Proof. eexists _, _. split; [vm_compute; reflexivity|]. vm_compute. auto. Qed.
 
@@ -61,7 +61,7 @@ Definition print_symbol_D10 (s : list Z) : list Z :=
 Lemma D10_witness :
   print_symbol_D10 kw_true = kw_true /\
   scan_arg_vals no_oracle no_oracle (print_symbol_D10 kw_true) 1 = Ok ([VT], []) /\
-  count_printed_arg_vals (print_symbol_D10 kw_MIDI ++ [32; 49]) = Ok (false, 1) /\
+  count_printed_arg_vals no_oracle no_oracle (print_symbol_D10 kw_MIDI ++ [32; 49]) = Ok (false, 1) /\
   (exists text w, print_arg_vals opts80 [VSym kw_true] 0 = Some (text, w) /\
      scan_arg_vals no_oracle no_oracle text 1 = Ok ([VSym kw_true], [])).
 Proof.
